@@ -56,10 +56,12 @@ def pmap(fn, items, nproc=None):
         pid = os.fork()
         if pid == 0:
             os.close(r)
+            import pete as _p
+            before = set(_p.COVER)
             try:
-                out = ('ok', [fn(x) for x in ch])
+                out = ('ok', [fn(x) for x in ch], sorted(_p.COVER - before))
             except BaseException as ex:  # noqa
-                out = ('err', '%s: %s' % (type(ex).__name__, ex))
+                out = ('err', '%s: %s' % (type(ex).__name__, ex), [])
             with os.fdopen(w, 'wb') as fh:
                 pickle.dump(out, fh)
             os._exit(0)
@@ -72,7 +74,11 @@ def pmap(fn, items, nproc=None):
         os.waitpid(pid, 0)
         results.append(pickle.loads(data) if data else ('err', 'worker died'))
     out = [None] * len(items)
-    for i, (st, res) in enumerate(results):
+    import pete as _p
+    for i, rr in enumerate(results):
+        st, res = rr[0], rr[1]
+        if len(rr) > 2:
+            _p.COVER.update(rr[2])
         if st != 'ok':
             raise Unanalysable(res) if 'Unanalysable' in str(res) else RuntimeError(res)
         out[i::nproc] = res
